@@ -163,6 +163,9 @@ native {
    eqrel_protocol_le4 => |s, r| { eqrel::protocol::<4>(s, r) },
    eqrel_protocol_le5 => |s, r| { eqrel::protocol::<5>(s, r) },
    eqrel_protocol_le6 => |s, r| { eqrel::protocol::<6>(s, r) },
+   eqrel_ternary_protocol_le3 => |s, r| { eqrel::protocol3::<3>(s, r) },
+   eqrel_ternary_protocol_le4 => |s, r| { eqrel::protocol3::<4>(s, r) },
+   eqrel_ternary_protocol_le5 => |s, r| { eqrel::protocol3::<5>(s, r) },
    trrel_uf_history_le4 => |s, r| { trrel::history::<4>(s, r) },
    trrel_uf_history_le5 => |s, r| { trrel::history::<5>(s, r) },
    trrel_uf_history_le6 => |s, r| { trrel::history::<6>(s, r) },
